@@ -47,7 +47,7 @@ def run(ctx):
         cg = ctx.callgraph(variant, 'lib')
         summ = Summaries(cg)
         roots = common.entry_points(prog)
-        reach = cg.reachable(roots)
+        reach = common.checked_reach(cg, prog) if roots else {}
         cg.require_resolved(within=set(reach))
         # functions registered as fork "prepare" handlers return with the lock held by design (C10)
         prepare_handlers = set()
